@@ -45,16 +45,34 @@ pub enum Op {
     ExtMulNorm(usize, usize), // (a + bX)^2 first coordinate via extension arithmetic
     SplitBase4(usize, usize), // split_le_base::<4>(x, limbs), returns limb 0
     Public(usize),
+    /// `connect(a, b)`: satisfiable iff the two values are equal; returns a
+    Connect(usize, usize),
+    // ---- added for C17 (gadget / generator coverage of the serializers); only generated when
+    // feature bit 4 (value 16) is set, so existing seeds are unaffected
+    ExtArith(u64, u64, [usize; 6], usize), // c0*A*B + c1*D on extension elements (x_i + x_j X), coordinate k
+    DivExt([usize; 4], usize),             // (x0 + x1 X) / (x2 + x3 X), coordinate k; divisor non-zero
+    ReduceBase([usize; 2], Vec<usize>, usize), // sum_i t_i * alpha^i via ReducingFactorTarget::reduce_base
+    ReduceExt([usize; 2], Vec<[usize; 2]>, usize), // the same over extension terms (ReducingExtensionGate)
+    CopyGen(usize),                        // generate_copy into a fresh virtual target
+    LowHigh(usize, usize, usize),          // split_low_high(x, n_log, num_bits) -> low
+    SplitBase2(usize, usize),              // split_le_base::<2>(x, limbs)[0]
+    ExpConstBase(u64, usize, usize),       // exp_from_bits_const_base(base, bits of x (n bits))
 }
 
 #[derive(Clone, Debug)]
 pub struct Prog {
     pub ops: Vec<Op>,
     pub tables: Vec<Vec<(u16, u16)>>,
+    /// build the twin circuit that omits every `connect` (same gates and rows, coarser partition)
+    pub skip_connect: bool,
 }
 
 fn f(x: u64) -> F {
     F::from_canonical_u64(x)
+}
+type FE = plonky2::field::extension::quadratic::QuadraticExtension<F>;
+fn fe(a: F, b: F) -> FE {
+    plonky2::field::extension::quadratic::QuadraticExtension([a, b])
 }
 
 impl Prog {
@@ -96,6 +114,24 @@ impl Prog {
                     pis.push(v[*a]);
                     v[*a]
                 }
+                Op::Connect(a, _) => v[*a],
+                Op::ExtArith(c0, c1, x, k) => {
+                    let (a, bb, d) = (fe(v[x[0]], v[x[1]]), fe(v[x[2]], v[x[3]]), fe(v[x[4]], v[x[5]]));
+                    (a * bb * fe(f(*c0), F::ZERO) + d * fe(f(*c1), F::ZERO)).0[*k]
+                }
+                Op::DivExt(x, k) => (fe(v[x[0]], v[x[1]]) / fe(v[x[2]], v[x[3]])).0[*k],
+                Op::ReduceBase(al, ts, k) => {
+                    let alpha = fe(v[al[0]], v[al[1]]);
+                    ts.iter().rev().fold(FE::ZERO, |acc, t| acc * alpha + fe(v[*t], F::ZERO)).0[*k]
+                }
+                Op::ReduceExt(al, ts, k) => {
+                    let alpha = fe(v[al[0]], v[al[1]]);
+                    ts.iter().rev().fold(FE::ZERO, |acc, t| acc * alpha + fe(v[t[0]], v[t[1]])).0[*k]
+                }
+                Op::CopyGen(a) => v[*a],
+                Op::LowHigh(a, n_log, _) => f(v[*a].to_canonical_u64() & ((1u64 << n_log) - 1)),
+                Op::SplitBase2(a, _) => f(v[*a].to_canonical_u64() & 1),
+                Op::ExpConstBase(base, e, _) => f(*base).exp_u64(v[*e].to_canonical_u64()),
             };
             v.push(val);
         }
@@ -163,6 +199,39 @@ impl Prog {
                     b.register_public_input(t[*x]);
                     t[*x]
                 }
+                Op::Connect(x, y) => {
+                    if !self.skip_connect { b.connect(t[*x], t[*y]); }
+                    t[*x]
+                }
+                Op::ExtArith(c0, c1, x, k) => {
+                    let et = |i: usize, j: usize| plonky2::iop::ext_target::ExtensionTarget::<D>([t[x[i]], t[x[j]]]);
+                    b.arithmetic_extension(f(*c0), f(*c1), et(0, 1), et(2, 3), et(4, 5)).0[*k]
+                }
+                Op::DivExt(x, k) => {
+                    let et = |i: usize, j: usize| plonky2::iop::ext_target::ExtensionTarget::<D>([t[x[i]], t[x[j]]]);
+                    b.div_extension(et(0, 1), et(2, 3)).0[*k]
+                }
+                Op::ReduceBase(al, ts, k) => {
+                    let alpha = plonky2::iop::ext_target::ExtensionTarget::<D>([t[al[0]], t[al[1]]]);
+                    let terms: Vec<Target> = ts.iter().map(|i| t[*i]).collect();
+                    plonky2::util::reducing::ReducingFactorTarget::new(alpha).reduce_base(&terms, &mut b).0[*k]
+                }
+                Op::ReduceExt(al, ts, k) => {
+                    let alpha = plonky2::iop::ext_target::ExtensionTarget::<D>([t[al[0]], t[al[1]]]);
+                    let terms: Vec<_> = ts.iter().map(|i| plonky2::iop::ext_target::ExtensionTarget::<D>([t[i[0]], t[i[1]]])).collect();
+                    plonky2::util::reducing::ReducingFactorTarget::new(alpha).reduce(&terms, &mut b).0[*k]
+                }
+                Op::CopyGen(x) => {
+                    let v = b.add_virtual_target();
+                    b.generate_copy(t[*x], v);
+                    v
+                }
+                Op::LowHigh(x, n_log, num_bits) => b.split_low_high(t[*x], *n_log, *num_bits).0,
+                Op::SplitBase2(x, l) => b.split_le_base::<2>(t[*x], *l)[0],
+                Op::ExpConstBase(base, e, n) => {
+                    let bits = b.split_le(t[*e], *n);
+                    b.exp_from_bits_const_base(f(*base), bits.iter())
+                }
             };
             t.push(tg);
         }
@@ -206,13 +275,18 @@ impl Prog {
                 Op::ExtMulNorm(a, b) => t.extend([21, u(a), u(b)]),
                 Op::SplitBase4(a, l) => t.extend([22, u(a), u(l)]),
                 Op::Public(a) => t.extend([23, u(a)]),
+                Op::Connect(a, b) => t.extend([24, u(a), u(b)]),
+                // the C17-only gadget ops have no counterpart in the Lean evalProg yet (never generated
+                // for the properties that use this encoding: feature bit 16)
+                _ => t.extend([99]),
             }
         }
         t
     }
 }
 
-/// A random, satisfiable program. `features`: bit 0 lookups, bit 1 hashing, bit 2 random access/exp.
+/// A random, satisfiable program. `features`: bit 0 lookups, bit 1 hashing, bit 2 random access/exp,
+/// bit 3 base-4 splits, bit 4 the C17 gadget mix (extension arithmetic/division, reducing gates, copies, …).
 pub fn gen_prog(r: &mut Rng, n_ops: usize, features: u64) -> Prog {
     let mut ops: Vec<Op> = vec![];
     let mut vals: Vec<F> = vec![];
@@ -237,7 +311,7 @@ pub fn gen_prog(r: &mut Rng, n_ops: usize, features: u64) -> Prog {
         ops.push(Op::Input(if r.coin() { *r.pick(&boundary) } else { r.below(P) }));
     }
     ops.push(Op::Const(*r.pick(&boundary)));
-    let prog0 = Prog { ops: ops.clone(), tables: tables.clone() };
+    let prog0 = Prog { ops: ops.clone(), tables: tables.clone(), skip_connect: false };
     vals = prog0.eval().0;
     let mut npub = 0;
     while ops.len() < n_ops {
@@ -245,6 +319,54 @@ pub fn gen_prog(r: &mut Rng, n_ops: usize, features: u64) -> Prog {
         let any = |r: &mut Rng| r.below(n as u64) as usize;
         let bools: Vec<usize> = (0..n).filter(|&i| vals[i] == F::ZERO || vals[i] == F::ONE).collect();
         let small = |bits: usize| -> Vec<usize> { (0..n).filter(|&i| vals[i].to_canonical_u64() < (1u64 << bits)).collect() };
+        if features & 16 != 0 && r.below(3) == 0 {
+            // C17 gadget mix (no draw from the stream unless the feature bit is set)
+            let k = r.below(2) as usize;
+            let mut six = [0usize; 6];
+            for s in six.iter_mut() { *s = any(r); }
+            let op = match r.below(9) {
+                0 => Op::ExtArith(*r.pick(&[0u64, 1, 2, P - 1, 12345]), *r.pick(&[0u64, 1, P - 1, 77]), six, k),
+                1 => {
+                    let x = [six[0], six[1], six[2], six[3]];
+                    if vals[x[2]] == F::ZERO && vals[x[3]] == F::ZERO { continue; }
+                    Op::DivExt(x, k)
+                }
+                // short reductions go through arithmetic gates, long ones through Reducing(Extension)Gate
+                2 => Op::ReduceBase([six[0], six[1]], (0..*r.pick(&[1usize, 5, 12, 13, 40, 70, 140])).map(|_| any(r)).collect(), k),
+                3 => Op::ReduceExt([six[0], six[1]], (0..*r.pick(&[1usize, 5, 12, 13, 33, 70])).map(|_| [any(r), any(r)]).collect(), k),
+                4 => Op::CopyGen(any(r)),
+                5 => {
+                    let num_bits = *r.pick(&[8usize, 16, 32, 40, 63]);
+                    let s = small(num_bits);
+                    if s.is_empty() { continue; }
+                    Op::LowHigh(*r.pick(&s), r.range(1, num_bits as u64 - 1) as usize, num_bits)
+                }
+                6 => {
+                    let limbs = *r.pick(&[1usize, 4, 16, 33, 63]);
+                    let s = small(limbs);
+                    if s.is_empty() { continue; }
+                    Op::SplitBase2(*r.pick(&s), limbs)
+                }
+                7 => {
+                    // few bits: arithmetic gates; many bits: ExponentiationGate
+                    let nb = *r.pick(&[1usize, 3, 10, 21, 30, 63]);
+                    let s = small(nb);
+                    if s.is_empty() { continue; }
+                    Op::ExpConstBase(if r.coin() { *r.pick(&boundary) } else { r.below(P) }, *r.pick(&s), nb)
+                }
+                _ => {
+                    // random access over 32 and 64 items (the generic arm stops at 16)
+                    let lb = r.range(5, 6) as usize;
+                    let s = small(lb);
+                    if s.is_empty() { continue; }
+                    Op::RandomAccess(*r.pick(&s), (0..1 << lb).map(|_| any(r)).collect())
+                }
+            };
+            ops.push(op);
+            let p = Prog { ops: ops.clone(), tables: tables.clone(), skip_connect: false };
+            vals = p.eval().0;
+            continue;
+        }
         let op = match r.below(26) {
             0 => Op::Input(if r.below(3) == 0 { *r.pick(&boundary) } else { r.below(P) }),
             1 => Op::Const(if r.coin() { *r.pick(&boundary) } else { r.below(P) }),
@@ -297,11 +419,22 @@ pub fn gen_prog(r: &mut Rng, n_ops: usize, features: u64) -> Prog {
                 if s.is_empty() { continue; }
                 Op::SplitBase4(*r.pick(&s), 8)
             }
-            24 | 25 => { npub += 1; Op::Public(any(r)) }
+            24 => { npub += 1; Op::Public(any(r)) }
+            25 => {
+                // two inputs with the same value, connected; both published
+                let v = if r.coin() { *r.pick(&boundary) } else { r.below(P) };
+                ops.push(Op::Input(v));
+                ops.push(Op::Input(v));
+                let n2 = ops.len();
+                ops.push(Op::Connect(n2 - 2, n2 - 1));
+                ops.push(Op::Public(n2 - 2));
+                npub += 1;
+                Op::Public(n2 - 1)
+            }
             _ => continue,
         };
         ops.push(op);
-        let p = Prog { ops: ops.clone(), tables: tables.clone() };
+        let p = Prog { ops: ops.clone(), tables: tables.clone(), skip_connect: false };
         vals = p.eval().0;
     }
     // the builder refuses a declared table that is never used ("LUT number _ is unused")
@@ -317,7 +450,7 @@ pub fn gen_prog(r: &mut Rng, n_ops: usize, features: u64) -> Prog {
     if npub == 0 {
         ops.push(Op::Public(ops.len() - 1));
     }
-    Prog { ops, tables }
+    Prog { ops, tables, skip_connect: false }
 }
 
 /// A random admissible-looking configuration (the caller still guards build/prove with
